@@ -532,7 +532,8 @@ Model: `AgModel.Pool` (`Model/Pool.lean`: `add_vote`, `add_cert`, `add_valid_cer
   tracker received (`mark_notar_fallback` for notarization / notar-fallback certificates, `mark_skipped` for skip
   certificates, `handle_finalization` with each event of the finality tracker, `prune` to `first_unpruned_slot`);
 * **premise** `Consistent L` (decidable): `Finality.Safe (finOps L)` (C08's premise: parents in earlier slots, one
-  parent per block, at most one finalized block per slot, …) and no skip certificate for a finalized slot — what
+  parent per block, at most one finalized block per slot, …), no skip certificate for a finalized slot, and the only
+  finalized block of slot 0 is genesis (explicit since the D27 repair weakened `Finality.Safe`) — what
   consensus safety (C01) gives for the certificates a correct node can ever hold.
 -/
 namespace AgModel.Pool
